@@ -135,7 +135,7 @@ impl BackupInstance {
         }
 
         if let Some(last_state) = self.last_state.as_ref().and_then(|states| states.get(path)) {
-            if *fingerprint == last_state.fingerprint {
+            if *fingerprint == last_state.fingerprint && size == last_state.size {
                 debug!("{:?} hasn't been changed.", path);
                 return Ok(Some((last_state.hash.clone(), size)));
             }
@@ -190,6 +190,7 @@ fn tar_header(metadata: &fs::Metadata) -> Header {
 
 struct FileState {
     fingerprint: Fingerprint,
+    size: u64,
     hash: Hash,
 }
 
@@ -211,6 +212,7 @@ fn load_backups_metadata(storage: &Storage, group: &BackupGroup) -> (
             if let Some(last_state) = last_state.as_mut() {
                 last_state.insert(file.path.into(), FileState {
                     fingerprint: file.fingerprint,
+                    size: file.size,
                     hash: file.hash.clone(),
                 });
             }
